@@ -48,7 +48,8 @@ def run_job(job):
             where = rng.choice(WHERES)
             ob, exprs, asc = ordering.gen_keys(rng, sel)
             kinds = [ordering.key_kind(e) for e in exprs]
-            table, fail = ordering.learn_keys(run, exprs, "t", where)
+            frm = rng.choice(["t", "t", "t", "t/d1, t/d2, t/many", "t/many dfs, t/d1", "t maxdepth 2"])
+            table, fail = ordering.learn_keys(run, exprs, frm, where)
             if table is None:
                 q, r = fail
                 if r.verdict == "busy":
@@ -59,7 +60,8 @@ def run_job(job):
                     res.viol("key-learning query failed: `%s` status %s stderr %r" % (q, r.rc, r.err[:120]),
                              {"query": q, "result": r.brief()})
                 continue
-            q = "%s from t%s order by %s into list" % (", ".join(sel), (" where " + where) if where else "", ob)
+            q = "%s from %s%s order by %s into list" % (", ".join(sel), frm, (" where " + where) if where else "", ob)
+            res.cover("from_clauses", frm)
             r = run(q, trace=(qi % 3 == 0))
             ctx = {"query": q, "keys": exprs, "asc": asc, "result": r.brief()}
             if r.verdict != "ok":
